@@ -96,6 +96,9 @@ def case_strategy(draw):
         "log_times": draw(st.booleans()), "save_group_times": draw(st.booleans()),
         "dtype": draw(st.sampled_from(["uint8", "uint16"])), "subjects": subjects,
         "reader": draw(st.sampled_from(["make_statistic", "from_file"])),
+        # another evaluator (same instance metrics, other global metrics) is built and asked for its keys first:
+        # state shared between evaluators must not reach this aggregator's header
+        "prime_gmetrics": draw(st.sampled_from([None, None, [], ["DSC"], ["DSC", "IOU", "RVD"]])),
     }
 
 
@@ -128,6 +131,9 @@ def check(case, stats):
     d = tempfile.mkdtemp(prefix="pv_c18_")
     try:
         out = os.path.join(d, "results.tsv")
+        if case.get("prime_gmetrics") is not None:
+            with H.quiet():
+                H.lib_call(lambda: lib.evaluator({**cfg, "gmetrics": case["prime_gmetrics"], "handler": None, "groups": None}).resulting_metric_keys)
         ev = lib.evaluator(cfg)
         agg = H.lib_call(lambda: Panoptica_Aggregator(ev, output_file=out, log_times=case["log_times"]))
         ev2 = lib.evaluator(cfg)
